@@ -168,7 +168,9 @@ def canon(j):
         if "pick" in j:
             return {"pick": [canon(j["pick"][0]), j["pick"][1]]}
         if "proj" in j:
-            return {"proj": [canon(j["proj"][0]), j["proj"][1]]}
+            # idempotent on already-canonical values: the base of a projection of a sequence call stays the plain call
+            b = j["proj"][0]
+            return {"proj": [_canon_plain(b) if _seq_call(b) else canon(b), j["proj"][1]]}
         return j
     return j
 
